@@ -61,7 +61,8 @@ def one(chk, it, ntx):
               'fee_multiplier': sterms['fee_multiplier'], 'dosc_speed': sterms['dosc_speed'], 'network': sterms['network']}
     n = 0
     for s1, o1 in it.exec_fn(st, to_block, [Ptr(scell)]):
-        rp = lambda mo: replay(chk, mo, inputs)
+        rp = lambda mo: replay(chk, mo, inputs, False)
+        rp_tips = lambda mo: replay(chk, mo, inputs, True)
         if isinstance(o1, Panic):
             chk.obligation('PANIC/to_block/%dtx' % ntx, list(s1.pc), z3.BoolVal(False), inputs, replay=rp, kind='PANIC', describe=str(o1))
             continue
@@ -88,7 +89,8 @@ def one(chk, it, ntx):
                     claim = B.map_extensional_eq(a.fields[0].data, b.fields[0].data)
                 else:
                     claim = val_eq(a, b)
-                chk.obligation('FUNC/field-%s-survives/%s' % (fname, name), pcs, claim, inputs, replay=rp,
+                chk.obligation('FUNC/field-%s-survives/%s' % (fname, name), pcs, claim, inputs,
+                               replay=rp_tips if fname == 'tips' else rp,
                                bound='arbitrary sealed state')
             chk.obligation('FUNC/proposer-action-survives/' + name, pcs, val_eq(act, ra), inputs, replay=rp)
             chk.cover('pending tips without an action/' + name, pcs + [z3.Not(has_action), z3.UGT(sterms['tips'], 0)])
@@ -99,9 +101,10 @@ def one(chk, it, ntx):
     it.overrides = []
 
 
-def replay(chk, model, inputs):
+def replay(chk, model, inputs, tips_matter):
     ev = lambda t: harness.model_int(model, t)
-    req = {'kind': 'c08', 'with_action': bool(ev(inputs['has_action'])), 'tips_nonzero': ev(inputs['tips']) != 0}
+    # pending tips only enter the scenario for the tips obligation itself (they are a known finding of their own)
+    req = {'kind': 'c08', 'with_action': bool(ev(inputs['has_action'])), 'tips_nonzero': tips_matter and ev(inputs['tips']) != 0}
     out = harness.run_replay([req], 'dev')[0]
     if 'error' in out:
         raise Inconclusive('replay: ' + out['error'])
